@@ -1,10 +1,14 @@
 import Casm.Model.Driver
+import Casm.Proofs.AssembleLemmas
 /-!
 # C03 — failure is loud, success is clean (driver outcome logic)
 
 About `Casm.Model.Driver.drive`, for every command line, every assembler answer and every
 set of unwritable output files.  The assembler is a parameter; its own contract
 ("an answer without output carries at least one error") is the hypothesis `AsmLoud`.
+`model_assembler_is_loud` discharges that contract for the whole-assembler model
+(`Casm.assemble`), so `model_drive_dichotomy` / `model_failure_writes_nothing` hold for the
+driver running the modelled assembler with no hypothesis left.
 The never-crashes part of C03 is established by the mutation search on the implementation
 (and, for the tokenizer and the location printer, by C13's theorems).
 -/
@@ -151,5 +155,40 @@ theorem unwritable_not_written (args : List String) (asm : Command → AsmResult
           simp only
           obtain ⟨e, h1, h2⟩ := runGroups_writes_prefix bits spans unw cmd.groups ⟨true, [], 0, [], 0⟩
           rw [h1]; simpa using h2
+
+/-! ## the modelled assembler satisfies the contract -/
+
+/-- the driver's view of the whole-assembler model over a fixed set of source files -/
+def modelAsm (fs : SrcFiles) (cmd : Command) : AsmResult :=
+  let opts : Opts :=
+    { maxIter := cmd.maxIter, optStatic := cmd.optStatic, optMatcher := cmd.optMatcher
+      defines := cmd.defines.map fun d => (d.1, match d.2 with | .bool b => Value.bool b | .int v sz => Value.int ⟨v, sz⟩) }
+  match assemble opts fs (cmd.inputs.map String.toList) with
+  | .ok r => .output r.bits (r.spans.map fun s => ⟨s.offset, s.size⟩)
+  | .error msgs => .failed msgs.length
+
+/-- **the modelled assembler never fails silently** -/
+theorem model_assembler_is_loud (fs : SrcFiles) : AsmLoud (modelAsm fs) := by
+  intro cmd n h
+  unfold modelAsm at h
+  simp only at h
+  split at h
+  · cases h
+  · rename_i msgs he
+    injection h with h
+    subst h
+    have := assemble_error_nonempty _ _ _ msgs he
+    cases msgs with
+    | nil => exact absurd rfl this
+    | cons a t => simp
+
+/-- the dichotomy for the driver running the modelled assembler: no hypothesis left -/
+theorem model_drive_dichotomy (args : List String) (fs : SrcFiles) (unw : List String) :
+    Success (drive args (modelAsm fs) unw) ∨ Failure (drive args (modelAsm fs) unw) :=
+  drive_dichotomy args (modelAsm fs) unw (model_assembler_is_loud fs)
+
+theorem model_failure_writes_nothing (args : List String) (fs : SrcFiles)
+    (hf : (drive args (modelAsm fs) []).ok = false) : (drive args (modelAsm fs) []).writes = [] :=
+  failure_writes_nothing args (modelAsm fs) hf
 
 end Casm.C03
